@@ -54,6 +54,9 @@ def sym_record(p, RunInfo, tag):
 
 
 def setup(eng, with_prlimit=True):
+    # checker.py logs the golden streams / exit codes (symbolic None-or-value
+    # here): formatting them forks without adding anything -- not evaluated
+    eng.eval_log_args = False
     env.install_checker_env(eng, with_prlimit)
     eng._ns = None
     env.install_options(eng, lambda: eng._ns)
